@@ -4,15 +4,15 @@ from . import common as C
 from . import sem as S
 
 # property -> (families quick, families thorough)
-ALLF = ["F1", "F1b", "F2", "F3", "F4", "F5", "F6", "F7", "F8", "F9", "F10", "F11", "F13"]
+ALLF = ["F1", "F1b", "F2", "F3", "F4", "F4b", "F5", "F6", "F7", "F8", "F8m", "F9", "F10", "F11", "F13"]
 FAMILIES = {
-    "C01": (["F1", "F1b", "F2", "F3", "F4", "F5", "F6", "F7", "F9", "F10", "F11", "F14", "R"], ALLF + ["F14", "F20", "FC1", "FC2", "R"]),
-    "C02": (["F1b", "F2", "F3", "F4", "F8", "F9", "F14"], ALLF + ["F14", "R"]),
-    "C03": (["F1", "F1b", "F2", "F3", "F7", "F8", "F9", "F11", "R"], ALLF + ["FC2", "R"]),
-    "C04": (["F8", "F5", "F6"], ["F8", "F1", "F1b", "F5", "F6", "F7", "F9"]),
-    "C09": (["F1", "F5", "F4"], ["F1", "F2", "F4", "F5", "F8", "F9"]),
+    "C01": (["F1", "F1b", "F2", "F3", "F4", "F4b", "F5", "F6", "F7", "F8m", "F9", "F10", "F11", "F14", "R"], ALLF + ["F14", "F20", "FC1", "FC2", "R"]),
+    "C02": (["F1b", "F2", "F3", "F4", "F4b", "F5", "F6", "F8", "F9", "F13", "F14"], ALLF + ["F14", "R"]),
+    "C03": (["F1", "F1b", "F2", "F3", "F7", "F8", "F8m", "F9", "F11", "R"], ALLF + ["FC2", "R"]),
+    "C04": (["F8", "F8m", "F5", "F6"], ["F8", "F8m", "F1", "F1b", "F5", "F6", "F7", "F9", "F14", "FC2", "R"]),
+    "C09": (["F1", "F5", "F4", "F8", "F20"], ["F1", "F2", "F4", "F5", "F8", "F8m", "F9", "F14", "F20", "R"]),
     "C13": (["F1", "F3", "F6", "F7", "F13"], ALLF + ["R"]),
-    "C16": (["F10", "F11", "F3", "F4"], ["F10", "F11", "F1", "F2", "F3", "F4", "F8"]),
+    "C16": (["F10", "F11", "F3", "F4", "F4b"], ["F10", "F11", "F1", "F2", "F3", "F4", "F4b", "F8"]),
     "C12": (["FC1", "FC2", "F6"], ["FC1", "FC2", "F6", "F1", "F13"]),
 }
 
@@ -99,7 +99,7 @@ def run_sem(prop, tier, v, families=None, opts=None, replay_cases=None, want=("s
     t0 = time.time()
     ropts = list(opts or [])
     extra = []
-    if "vm" in want:
+    if "vm" in want or "compile" in want:
         ropts += ["--progs"]
         extra.append(("--vm-out", "vm"))
     if "api" in want:
@@ -162,6 +162,14 @@ def run_sem(prop, tier, v, families=None, opts=None, replay_cases=None, want=("s
         absorb(results)
         vs = [j for j in R["jlines"] if j["kind"] == "vmstat"]
         R["vm_runs"] = sum(j["runs"] for j in vs)
+    if "compile" in want:
+        # the dumped no_opt program must be the one the emitter specification (Compile.tla) produces
+        t0 = time.time()
+        results, njudged = judge_sharded("JudgeCompile", "JudgeCompile.cfg", paths["vm"], work, "cmp", parts=parts)
+        absorb(results)
+        cs = [j for j in R["jlines"] if j["kind"] == "compilestat"]
+        R["compile_judged"] = sum(1 for j in cs if j["judged"])
+        C.log("judge (emitter skeleton, Compile.tla): %d programs in %.1fs" % (R["compile_judged"], time.time() - t0))
     if "space" in want:
         # model checking with the machines' real Next relation: every state of every run of a sample of the
         # dumped programs is explored, invariants on every state, termination as a liveness property
@@ -264,6 +272,12 @@ def classify(prop, R, v, kinds_sem=(), pairs=(), use_bad=False, use_fails=None):
                 j["match"], r.get("pats"), r.get("flags"), r["hays"][j["h"]], j["wrong"], j["names"],
                 json.dumps({k: j["api"][k] for k in ("group", "groups", "named", "named_groups")}))
             v.violation(what, {"pipeline": "sem", "case": S.small_case(r, j["h"]), "kind": "api", "detail": j})
+        elif kd == "emit":
+            r = rec(j["id"])
+            k = next((i for i in range(min(len(j["exp"]), len(j["got"]))) if j["exp"][i] != j["got"][i]), min(len(j["exp"]), len(j["got"])))
+            what = "the no_opt program of /%s/%s is not the one the emitter specification produces: at instruction %d expected %s, dumped %s (loops %s, groups %s)" % (
+                r.get("pats"), r.get("flags"), k, j["exp"][k] if k < len(j["exp"]) else None, j["got"][k] if k < len(j["got"]) else None, j["loops"], j["groups"])
+            v.violation(what, {"pipeline": "sem", "case": S.small_case(r), "kind": "emit", "detail": j})
         elif kd == "pred":
             r = rec(j["id"])
             what = "start predicate %s of the %s program of /%s/%s rejects byte offset %d of %s where an anchored attempt succeeds" % (
@@ -353,6 +367,7 @@ def coverage(R, samples, rule):
         "states": R["states"], "transitions": R["generated"],
         "traces_validated_against_impl": R.get("traces_validated", 0),
         "trace_states": R.get("trace_states", 0), "machine_runs_on_dumped_bytecode": R.get("vm_runs", 0),
+        "emitter_skeletons_judged": R.get("compile_judged", 0),
         "machine_state_space_states": R.get("space_states", 0), "machine_state_space_programs": R.get("space_programs", 0),
         "evaluations": evals, "distinct_nontrivial": nontriv,
         "programs": R["ncases"], "families": R["counts"],
